@@ -158,6 +158,138 @@ def test_repo_suite():
     return passed, int(failed.group(1)) if failed else 0, int(errors.group(1)) if errors else 0, out
 
 
+def test_symsql(seed):
+    """the symbolic SQL engine against the real sqlite3 library: the repository's store classes are driven through the same
+    random operation sequences (concrete values) on both, incl. process deaths (connection abandoned without commit) and
+    reopening; every return value and the durable table contents must agree"""
+    import sqlite3, tempfile, shutil
+    from sx import symsql, loader
+    sys.path.insert(0, os.environ.get("YOWSUP_REPO", "/repo"))
+    import yowsup.axolotl.store.sqlite.liteaxolotlstore as m
+    import yowsup.axolotl.store.sqlite.liteidentitykeystore as mi
+    import yowsup.axolotl.store.sqlite.litesenderkeystore as ms
+    from checks.c13 import Tok, SKName
+
+    class FixedKH(object):
+        @staticmethod
+        def generateIdentityKeyPair():
+            class P(object):
+                def getPublicKey(s):
+                    return Tok2(b"\x05" + bytes(range(32)))
+
+                def getPrivateKey(s):
+                    return Tok(bytes(range(32, 64)))
+            return P()
+
+        @staticmethod
+        def generateRegistrationId(x):
+            return 4242
+
+    class Tok2(Tok):
+        def getPublicKey(self):
+            return self
+    rnd = random.Random(seed)
+    n = 0
+    tmp = tempfile.mkdtemp(prefix="symsql_", dir="/dev/shm" if os.path.isdir("/dev/shm") else None)
+    old = (m.sqlite3, ms.sqlite3, mi.KeyHelper)
+    try:
+        mi.KeyHelper = FixedKH
+        for trial in range(12):
+            path = os.path.join(tmp, "t%d.db" % trial)
+            symsql.reset()
+            stores = {}
+
+            def open_(engine):
+                m.sqlite3 = ms.sqlite3 = engine
+                return m.LiteAxolotlStore(path if engine is sqlite3 else "sym:" + path)
+            stores["real"], stores["sym"] = open_(sqlite3), open_(symsql)
+            for step in range(40):
+                op = rnd.choice(["storeSession", "deleteSession", "deleteAll", "containsSession", "subDevices", "saveIdentity", "trusted", "storePreKey", "removePreKey", "containsPreKey",
+                                 "setAsSent", "maxPreKey", "unsent", "nullcmp", "storeSigned", "removeSigned", "storeSenderKey", "loadSenderRaw", "die", "regid"])
+                r, i, g = rnd.choice([11, 22, 33]), rnd.choice([5, 6, 7]), rnd.choice(["g1@g.us", "g2@g.us"])
+                sender = rnd.choice(["4915901", "77"])
+                blob = bytes([rnd.randrange(256) for _ in range(rnd.randrange(1, 9))])
+                res = {}
+                for name in ("real", "sym"):
+                    st = stores[name]
+                    m.sqlite3 = ms.sqlite3 = sqlite3 if name == "real" else symsql
+                    try:
+                        if op == "storeSession":
+                            out = st.storeSession(r, 1, Tok(blob))
+                        elif op == "deleteSession":
+                            out = st.deleteSession(r, 1)
+                        elif op == "deleteAll":
+                            out = st.deleteAllSessions(r)
+                        elif op == "containsSession":
+                            out = st.containsSession(r, 1)
+                        elif op == "subDevices":
+                            out = st.getSubDeviceSessions(r)
+                        elif op == "saveIdentity":
+                            out = st.saveIdentity(r, Tok(blob))
+                        elif op == "trusted":
+                            out = st.isTrustedIdentity(r, Tok(blob))
+                        elif op == "storePreKey":
+                            out = st.storePreKey(i, Tok(blob))
+                        elif op == "removePreKey":
+                            out = st.removePreKey(i)
+                        elif op == "containsPreKey":
+                            out = st.containsPreKey(i)
+                        elif op == "setAsSent":
+                            out = st.preKeyStore.setAsSent([i, i + 1])
+                        elif op == "maxPreKey":
+                            out = st.preKeyStore.loadMaxPreKeyId()
+                        elif op == "unsent":
+                            c = st.preKeyStore.dbConn.cursor()
+                            c.execute("SELECT record FROM prekeys WHERE sent_to_server is NULL or sent_to_server = ?", (0,))
+                            out = [bytes(x[0]) for x in c.fetchall()]
+                        elif op == "nullcmp":
+                            c = st.preKeyStore.dbConn.cursor()
+                            out = [sorted(c.execute(q, (0,)).fetchall()) for q in ("SELECT prekey_id FROM prekeys WHERE sent_to_server = ?", "SELECT prekey_id FROM prekeys WHERE sent_to_server != ?",
+                                                                                   "SELECT prekey_id FROM prekeys WHERE sent_to_server is not NULL or prekey_id = ?")]
+                        elif op == "storeSigned":
+                            out = st.storeSignedPreKey(i, Tok(blob))
+                        elif op == "removeSigned":
+                            out = st.removeSignedPreKey(i)
+                        elif op == "storeSenderKey":
+                            out = st.storeSenderKey(SKName(g, sender), Tok(blob))
+                        elif op == "loadSenderRaw":
+                            c = st.senderKeyStore.dbConn.cursor()
+                            c.execute("SELECT record FROM sender_keys WHERE group_id = ? and sender_id = ?", (g, sender))
+                            x = c.fetchone()
+                            out = bytes(x[0]) if x else None
+                        elif op == "regid":
+                            out = (st.getLocalRegistrationId(), [bytes(x) for x in st.identityKeyStore.dbConn.cursor().execute("SELECT public_key, private_key FROM identities WHERE recipient_id = -1").fetchone()])
+                        elif op == "die":
+                            # the process dies in the middle of a session replacement or not at all; then restarts
+                            conn = st.identityKeyStore.dbConn
+                            conn.cursor().execute("DELETE FROM sessions WHERE recipient_id = ? AND device_id = ?", (r, 1))
+                            conn.close()
+                            stores[name] = st = open_(sqlite3 if name == "real" else symsql)
+                            out = "restarted"
+                    except (sqlite3.IntegrityError, sqlite3.OperationalError) as e:
+                        out = ("raised", type(e).__name__)
+                    res[name] = out
+                assert res["real"] == res["sym"], "symsql differs from sqlite3 on %s(%s,%s,%s): real %r, model %r" % (op, r, i, g, res["real"], res["sym"])
+                n += 1
+            # durable contents
+            stores["real"].identityKeyStore.dbConn.commit()
+            stores["sym"].identityKeyStore.dbConn.commit()
+            c = sqlite3.connect(path)
+            for t, cols in (("sessions", "recipient_id, device_id, record"), ("identities", "recipient_id, registration_id, public_key, private_key"), ("prekeys", "prekey_id, sent_to_server, record"),
+                            ("signed_prekeys", "prekey_id, record"), ("sender_keys", "group_id, sender_id, record")):
+                real = sorted(tuple(x) for x in c.execute("SELECT %s FROM %s" % (cols, t)).fetchall())
+                mod = sorted(tuple(r_[k.strip()] for k in cols.split(",")) for r_ in symsql.committed_rows("sym:" + path, t))
+                assert repr(real) == repr(mod), "symsql durable table %s differs: real %r model %r" % (t, real, mod)
+                n += 1
+            c.close()
+            for st in stores.values():
+                st.identityKeyStore.dbConn.close()
+    finally:
+        m.sqlite3, ms.sqlite3, mi.KeyHelper = old
+        shutil.rmtree(tmp, ignore_errors=True)
+    return n
+
+
 def main():
     seed = int(os.environ.get("VERIF_SEED", "0") or 0)
     t0 = time.time()
@@ -166,6 +298,7 @@ def main():
         res["symint_points"] = test_symint(seed)
         res["struct_hex_points"] = test_struct_hex(seed)
         res["rope_points"] = test_ropes(seed)
+        res["symsql_vs_sqlite_points"] = test_symsql(seed)
     except AssertionError as e:
         print("SELFTEST FAILED (intrinsic model differs from CPython): %s" % (e,))
         return 3
